@@ -37,6 +37,48 @@ def run(ck):
                          % (b["stmt"], b["proved"], b["guard"]))
 
     s.on_program = context_contract
+    shift_corr = {"same": 0, "differ": 0, "theorem_applies": 0, "outside_theorem_hypotheses": 0}
+
+    def expand(sx, defs):
+        import re
+        for _ in range(8):
+            sx2 = re.sub(r"\(call (p\d+) ", lambda m: "(call " + defs.get(m.group(1), m.group(1)) + " ", sx)
+            if sx2 == sx:
+                return sx
+            sx = sx2
+        return sx
+
+    def shift_model(p, q, op, descr, site, replay):
+        # correspondence of the Gallina rewrite ShiftLoop.shift_proc (about which C01_shift_proc is proved) with the
+        # real Procedure.shift_loop: identical terms; and whether the instance lies inside the theorem's hypotheses
+        if op != "shift_loop":
+            return
+        import ast, re
+        m = re.match(r"N(\[.*?\]) lo=(-?\d+)$", descr)
+        if not m:
+            return
+        node = p._loopir_proc
+        for attr, idx in ast.literal_eval(m.group(1)):
+            node = getattr(node, attr)[idx]
+        name = s.sc.ref(p)
+        ex = s.sc.ex
+        job = "%s %s (int %s)" % (name, ex.sym(node.iter), m.group(2))
+        model = s.sc.interp.ask("(shift %s)" % job)
+        inside = s.sc.interp.ask("(shiftok %s)" % job).strip() == "ok"
+        real = ex.proc_sexp(q._loopir_proc)
+        defs = {n: sx for (n, sx) in ex.procs.values()}
+        ck.case("shift_loop-model-vs-impl", (replay["program"], descr), sample={"loop": str(node.iter), "new_lo": m.group(2)},
+                tag="inside-theorem" if inside else "outside-theorem-hypotheses")
+        shift_corr["theorem_applies" if inside else "outside_theorem_hypotheses"] += 1
+        if expand(model, defs) == expand(real, defs):
+            shift_corr["same"] += 1
+            ck.corr_agree("shift_loop-model-vs-impl")
+        else:
+            shift_corr["differ"] += 1
+            ck.corr_diverge("shift_loop-model-vs-impl", {"program": replay["program"], "source": replay["source"],
+                                                         "descr": descr, "model": model, "impl": real})
+
+    s.after_apply.append(shift_model)
     findings = s.run(n_programs=ck.n(60, 600), budget_s=ck.n(110, 1300))
     # second stream: aliasing stress (windows of windows, the same cell reached through two names) under the
     # operations whose side conditions are location-set queries
@@ -54,6 +96,7 @@ def run(ck):
     ck.cov["search"] = s.stats
     ck.cov["search_aliasing_stress"] = s2.stats
     ck.cov["context_contract"] = ctx_stats
+    ck.cov["shift_loop_model_correspondence"] = shift_corr
     ck.cov["operation_crashes"] = s.crashes
     ck.cov["inputs_run_in_reference_semantics"] = s.sc.runs + s2.sc.runs
     ck.cov["comparisons_where_source_ran_to_completion"] = s.sc.nontrivial
@@ -64,4 +107,4 @@ def run(ck):
                       "(program, schedule)")
     ck.cov["trusted_base"] = TRUSTED
     ck.assumptions += ["data values are exact rationals (the property says: up to real-number algebra)",
-                       "sizes 1..4, index arguments -2..5, window strides 1..2 in generated inputs (search only; theorems are unbounded)"]
+                       "sizes 1..4 and index arguments -2..5 (widened up to +28 until the procedure's assertions hold), window strides 1..2 in generated inputs (search only; theorems are unbounded)"]
